@@ -1571,26 +1571,26 @@ of the cluster layer.  Regenerated from the working tree on every run; any edit 
 that code breaks this `rfl` (then: re-read the Go, repair the model, re-pin).
 To re-pin: copy `skeleton` / `routes` from lean/SemaModel/Generated/FactsC18.lean. -/
 
-theorem C18_pin_routes : FactsC18.routes = ["root v6.Handle(\"/v1/\", http.StripPrefix(\"/v1\", httpv1.SetupV1Handlers(v2)))",
-  "root v6.Handle(\"/v2/\", http.StripPrefix(\"/v2\", httpv2.SetupV2Handlers(v2)))",
-  "v1 v3.HandleFunc(\"/ping\", v1)",
-  "v1 v3.HandleFunc(\"GET /collections\", v4.HandleListCollections)",
-  "v1 v3.HandleFunc(\"POST /collections\", v4.HandleCreateCollection)",
-  "v1 v3.Handle(\"GET /collections/{collectionId}\", v5(v4.HandleGetCollection))",
-  "v1 v3.Handle(\"DELETE /collections/{collectionId}\", v5(v4.HandleDeleteCollection))",
-  "v1 v3.Handle(\"POST /collections/{collectionId}/points\", v5(v4.HandleInsertPoints))",
-  "v1 v3.Handle(\"PUT /collections/{collectionId}/points\", v5(v4.HandleUpdatePoints))",
-  "v1 v3.Handle(\"DELETE /collections/{collectionId}/points\", v5(v4.HandleDeletePoints))",
-  "v1 v3.Handle(\"POST /collections/{collectionId}/points/search\", v5(v4.HandleSearchPoints))",
-  "v2 v3.HandleFunc(\"/ping\", v1)",
-  "v2 v3.HandleFunc(\"GET /collections\", v4.HandleListCollections)",
-  "v2 v3.HandleFunc(\"POST /collections\", v4.HandleCreateCollection)",
-  "v2 v3.Handle(\"GET /collections/{collectionId}\", v5(v4.HandleGetCollection))",
-  "v2 v3.Handle(\"DELETE /collections/{collectionId}\", v5(v4.HandleDeleteCollection))",
-  "v2 v3.Handle(\"POST /collections/{collectionId}/points\", v5(v4.HandleInsertPoints))",
-  "v2 v3.Handle(\"PUT /collections/{collectionId}/points\", v5(v4.HandleUpdatePoints))",
-  "v2 v3.Handle(\"DELETE /collections/{collectionId}/points\", v5(v4.HandleDeletePoints))",
-  "v2 v3.Handle(\"POST /collections/{collectionId}/points/search\", v5(v4.HandleSearchPoints))"] := rfl
+theorem C18_pin_routes : FactsC18.routes = ["root v5.Handle(\"/v1/\", http.StripPrefix(\"/v1\", httpv1.SetupV1Handlers(v1)))",
+  "root v5.Handle(\"/v2/\", http.StripPrefix(\"/v2\", httpv2.SetupV2Handlers(v1)))",
+  "v1 v2.HandleFunc(\"/ping\", handlePing)",
+  "v1 v2.HandleFunc(\"GET /collections\", v3.HandleListCollections)",
+  "v1 v2.HandleFunc(\"POST /collections\", v3.HandleCreateCollection)",
+  "v1 v2.Handle(\"GET /collections/{collectionId}\", v4(v3.HandleGetCollection))",
+  "v1 v2.Handle(\"DELETE /collections/{collectionId}\", v4(v3.HandleDeleteCollection))",
+  "v1 v2.Handle(\"POST /collections/{collectionId}/points\", v4(v3.HandleInsertPoints))",
+  "v1 v2.Handle(\"PUT /collections/{collectionId}/points\", v4(v3.HandleUpdatePoints))",
+  "v1 v2.Handle(\"DELETE /collections/{collectionId}/points\", v4(v3.HandleDeletePoints))",
+  "v1 v2.Handle(\"POST /collections/{collectionId}/points/search\", v4(v3.HandleSearchPoints))",
+  "v2 v2.HandleFunc(\"/ping\", handlePing)",
+  "v2 v2.HandleFunc(\"GET /collections\", v3.HandleListCollections)",
+  "v2 v2.HandleFunc(\"POST /collections\", v3.HandleCreateCollection)",
+  "v2 v2.Handle(\"GET /collections/{collectionId}\", v4(v3.HandleGetCollection))",
+  "v2 v2.Handle(\"DELETE /collections/{collectionId}\", v4(v3.HandleDeleteCollection))",
+  "v2 v2.Handle(\"POST /collections/{collectionId}/points\", v4(v3.HandleInsertPoints))",
+  "v2 v2.Handle(\"PUT /collections/{collectionId}/points\", v4(v3.HandleUpdatePoints))",
+  "v2 v2.Handle(\"DELETE /collections/{collectionId}/points\", v4(v3.HandleDeletePoints))",
+  "v2 v2.Handle(\"POST /collections/{collectionId}/points/search\", v4(v3.HandleSearchPoints))"] := rfl
 
 /-- the recursion sites the model's `Query.valid`, `Query.validSchema`, `Query.reach` and `Query.live` transcribe: which list
 (`q.And` / `q.Or`) and which filter `Query.Validate`, `Query.ValidateSchema` and `indexManager.Search` (shard/index/search.go)
@@ -1648,12 +1648,12 @@ theorem C18_pin_skeleton : FactsC18.skeleton = [
   ("models.IndexSchemaValue.Validate", "if v1.Text == nil"),
   ("models.IndexSchemaValue.Validate", "if v1.String == nil"),
   ("models.IndexSchemaValue.Validate", "if v1.StringArray == nil"),
-  ("models.convertToVector", "typeswitch v4 := v2.(type)"),
+  ("models.convertToVector", "typeswitch v3 := v1.(type)"),
   ("models.convertToVector", "case []float32"),
   ("models.convertToVector", "case []float64"),
   ("models.convertToVector", "case []any"),
   ("models.convertToVector", "default"),
-  ("models.convertToVector", "typeswitch v9 := v8.(type)"),
+  ("models.convertToVector", "typeswitch v8 := v7.(type)"),
   ("models.convertToVector", "case float32"),
   ("models.convertToVector", "case float64"),
   ("models.convertToVector", "default"),
@@ -1904,11 +1904,11 @@ theorem C18_pin_skeleton : FactsC18.skeleton = [
   ("v1.SemaDBHandlers.HandleCreateCollection", "case cluster.ErrExists"),
   ("v1.SemaDBHandlers.HandleCreateCollection", "default"),
   ("v1.SemaDBHandlers.HandleListCollections", "if v6 != nil"),
-  ("v1.SemaDBHandlers.HandleListCollections", "if !v1(v8)"),
+  ("v1.SemaDBHandlers.HandleListCollections", "if !isV1Collection(v8)"),
   ("v1.SemaDBHandlers.CollectionURIMiddleware", "if len(a3) < 3 || len(a3) > 16"),
   ("v1.SemaDBHandlers.CollectionURIMiddleware", "if a6 == cluster.ErrNotFound"),
   ("v1.SemaDBHandlers.CollectionURIMiddleware", "if a6 != nil"),
-  ("v1.SemaDBHandlers.CollectionURIMiddleware", "if !v1(a5)"),
+  ("v1.SemaDBHandlers.CollectionURIMiddleware", "if !isV1Collection(a5)"),
   ("v1.SemaDBHandlers.HandleGetCollection", "if errors.Is(v6, cluster.ErrShardUnavailable)"),
   ("v1.SemaDBHandlers.HandleGetCollection", "if v6 != nil"),
   ("v1.SemaDBHandlers.HandleDeleteCollection", "if v6 != nil"),
@@ -1952,15 +1952,15 @@ theorem C18_pin_skeleton : FactsC18.skeleton = [
   ("v1.SemaDBHandlers.HandleSearchPoints", "if v5 != nil"),
   ("v1.SemaDBHandlers.HandleSearchPoints", "if v12.Distance != nil"),
   ("utils.DecodeValid", "if a1 != nil"),
-  ("utils.DecodeValid", "switch v6"),
+  ("utils.DecodeValid", "switch v5"),
   ("utils.DecodeValid", "case \"application/json\""),
   ("utils.DecodeValid", "case \"application/msgpack\""),
   ("utils.DecodeValid", "default"),
-  ("utils.DecodeValid", "if v7 != nil"),
+  ("utils.DecodeValid", "if v6 != nil"),
+  ("utils.DecodeValid", "if v8 != nil"),
   ("utils.DecodeValid", "if v9 != nil"),
-  ("utils.DecodeValid", "if v10 != nil"),
+  ("utils.DecodeValid", "if v11 != nil"),
   ("utils.DecodeValid", "if v12 != nil"),
-  ("utils.DecodeValid", "if v13 != nil"),
   ("middleware.AppHeaderMiddleware", "if a3.PlanId == \"\" || a3.UserId == \"\""),
   ("middleware.AppHeaderMiddleware", "if a3.UserId == \".\" || a3.UserId == \"..\" || strings.ContainsAny(a3.UserId, `/\\`)"),
   ("middleware.AppHeaderMiddleware", "if !a6"),
